@@ -146,7 +146,7 @@ func runHistory(res *vh.Result, rp replay, verbose bool) string {
 	ref := map[int]mem{} // the property's "present" members: addr -> last joined member
 	var steps []string
 	fail := func(class, desc string) {
-		res.Fail(class, desc, rp)
+		failc(res, class, desc, rp)
 	}
 	nontrivial := false
 	for i, op := range rp.Ops {
@@ -346,6 +346,18 @@ func runHistory(res *vh.Result, rp replay, verbose bool) string {
 	return vh.List(steps)
 }
 
+// failc records at most 25 failures per class (vh.Result keeps 200 in total).
+var failCount = map[string]int{}
+
+func failc(res *vh.Result, class, desc string, replay any) {
+	failCount[class]++
+	if failCount[class] <= 25 {
+		res.Fail(class, desc, replay)
+	} else {
+		res.Distribution["oracle_fail:"+class]++
+	}
+}
+
 func genHistory(r *vh.Rand, tag *int) replay {
 	rp := replay{Mode: "pool"}
 	if r.Chance(2, 5) {
@@ -458,7 +470,7 @@ func concurrent(res *vh.Result, r *vh.Rand, rounds int) {
 			return true
 		})
 		if im.pool.Len() != len(table) {
-			res.Fail("concurrent-len", fmt.Sprintf("Len()=%d, Traverse visits %d", im.pool.Len(), len(table)), rp)
+			failc(res, "concurrent-len", fmt.Sprintf("Len()=%d, Traverse visits %d", im.pool.Len(), len(table)), rp)
 		}
 		total := 0
 		for n := 0; n < nNodes; n++ {
@@ -467,22 +479,22 @@ func concurrent(res *vh.Result, r *vh.Rand, rounds int) {
 				g := memOf(m)
 				total++
 				if seen[g.addr] {
-					res.Fail("concurrent-node-list-duplicate", fmt.Sprintf("node %d lists address %d twice", n, g.addr), rp)
+					failc(res, "concurrent-node-list-duplicate", fmt.Sprintf("node %d lists address %d twice", n, g.addr), rp)
 				}
 				seen[g.addr] = true
 				if w, ok := table[g.addr]; !ok || w != g || g.node != n {
-					res.Fail("concurrent-node-list-not-exact", fmt.Sprintf("node %d lists %+v, address table has %+v (present=%v)", n, g, w, ok), rp)
+					failc(res, "concurrent-node-list-not-exact", fmt.Sprintf("node %d lists %+v, address table has %+v (present=%v)", n, g, w, ok), rp)
 				}
 			}
 		}
 		if total != len(table) {
-			res.Fail("concurrent-node-list-not-exact", fmt.Sprintf("per-node lists hold %d members, address table %d", total, len(table)), rp)
+			failc(res, "concurrent-node-list-not-exact", fmt.Sprintf("per-node lists hold %d members, address table %d", total, len(table)), rp)
 		}
 		for a := 0; a < nAddrs; a++ {
 			_, present := table[a]
 			gm, found := im.pool.Get(addrs[a])
 			if found != present || im.pool.Exists(addrs[a]) != present || (gm != nil) != present {
-				res.Fail("concurrent-get", fmt.Sprintf("addr %d: Get found=%v Exists=%v, in table=%v", a, found, im.pool.Exists(addrs[a]), present), rp)
+				failc(res, "concurrent-get", fmt.Sprintf("addr %d: Get found=%v Exists=%v, in table=%v", a, found, im.pool.Exists(addrs[a]), present), rp)
 			}
 		}
 		res.Evaluations++
